@@ -151,6 +151,30 @@ class MixRec(_ExecMixin, System):
         self.world = world
 
 
+class InstRec(System):
+    """A recording system of a class that has no execute() of its own: the callable is stored on the INSTANCE
+    (self.execute = callback), which shadows the inherited abstract method."""
+
+    def __init__(self, spec, model, world):
+        spec = spec_defaults(spec)
+        super().__init__(spec["id"], model, priority=spec["prio"], frequency=spec["freq"], start=spec["start"], end=spec["end"])
+        self.world = world
+        self.execute = lambda: world.on_execute(self)
+
+    def __deepcopy__(self, memo):           # (the closure above must follow a deep copy of the system)
+        import copy as _copy
+        new = type(self).__new__(type(self))
+        memo[id(self)] = new
+        for k_ in ("id", "model", "priority", "frequency", "start", "end"):
+            setattr(new, k_, _copy.deepcopy(getattr(self, k_), memo))
+        new.world = _copy.deepcopy(self.world, memo)
+        for k_, v_ in self.__dict__.items():
+            if k_ not in ("world", "execute"):
+                new.__dict__[k_] = _copy.deepcopy(v_, memo)
+        new.execute = lambda: new.world.on_execute(new)
+        return new
+
+
 class LenRec(Rec):
     """A falsy system: what a System subclass that defines __len__ (over its own records, say) is while it holds nothing.
     Presence in the scheduler must never be decided by an object's truth value."""
@@ -215,7 +239,7 @@ def gen_flavour(rng):
     if r < 0.34:
         return {"value_eq": False, "syskind": rng.choice(["collector", "file", "file"]), "returns": None}
     if r < 0.44:
-        return {"value_eq": False, "syskind": rng.choice(["own_order", "mixin_execute"]), "returns": None}
+        return {"value_eq": False, "syskind": rng.choice(["own_order", "mixin_execute", "instance_execute"]), "returns": None}
     if r < 0.56:
         return {"value_eq": False, "dunders": gen_dunders(rng), "returns": ret}
     return {"value_eq": False, "returns": ret}
@@ -236,7 +260,7 @@ def rec_class(sc, ctx=None):
     if sc.get("syskind"):
         if ctx is not None:
             ctx.probe("systems_that_are_bundled_collectors" if sc["syskind"] in ("file", "collector") else "systems_of_kind_" + sc["syskind"])
-        return {"file": RecFileSys, "collector": RecCollectorSys, "own_order": LtRec, "mixin_execute": MixRec}[sc["syskind"]]
+        return {"file": RecFileSys, "collector": RecCollectorSys, "own_order": LtRec, "mixin_execute": MixRec, "instance_execute": InstRec}[sc["syskind"]]
     if sc.get("dunders"):
         if ctx is not None:
             ctx.probe("systems_with_special_methods_of_their_own")
